@@ -28,7 +28,7 @@ type item struct {
 	Kind string `json:"kind"` // video1, video129, video257, cmdext, uc, scs4096, video300
 }
 
-var itemKinds = []string{"video1", "video129", "video257", "cmdext", "uc", "scs4096"}
+var itemKinds = []string{"video1", "video129", "video257", "cmdext", "uc", "scs4096", "video9000"}
 
 type wmsg struct {
 	Type    uint8
@@ -50,6 +50,8 @@ func writeItem(p *rtmp.Protocol, kind string, i int) (wmsg, error) {
 		return mk(9, 80, 129)
 	case "video257":
 		return mk(9, 120, 257)
+	case "video9000":
+		return mk(9, 160, 9000) // larger than the 4096-byte write buffer: spills to the transport mid-message
 	case "cmdext":
 		return mk(20, 0x1000000, 130)
 	case "uc":
@@ -747,7 +749,7 @@ func errorsNestings(c *hl.Ctx, depth int) {
 }
 
 func run(c *hl.Ctx) {
-	c.Rule("fault enumeration: RTMP sessions = all item sequences <= d over {1/129/257-byte video, 130-byte command with extended timestamp, user-control packet, Set Chunk Size 4096}; for each: every cut offset 0..len x {whole, 1-byte} reads, an injected error at every transport read call index x {0,3} bytes alongside, the same through ExpectMessage/ExpectPacket at item boundaries, an injected error at every transport write call index x {0,1,half} bytes alongside; all six handshake methods under cuts and injected errors; FLV files = all tag sequences <= d over 5 tags (sizes 0,1,255,256,40; timestamps around 2^24 and 2^32-1) under the same faults; errors package = every nesting of {WithStack, Wrap, Wrapf, WithMessage} up to depth 5 over 6 roots. Oracle: items returned before the failure are exactly the completely transferred ones and equal to what was written; non-nil error whose errors.Cause is the transport's error (identity) or io.EOF/io.ErrUnexpectedEOF for a cut; wire after a write failure is a prefix of the fault-free stream. Non-trivial = distinct (session, fault) case that satisfied every clause.")
+	c.Rule("fault enumeration: RTMP sessions = all item sequences <= d over {1/129/257/9000-byte video, 130-byte command with extended timestamp, user-control packet, Set Chunk Size 4096}; for each: every cut offset 0..len x {whole, 1-byte} reads, an injected error at every transport read call index x {0,3} bytes alongside, the same through ExpectMessage/ExpectPacket at item boundaries, an injected error at every transport write call index x {0,1,half} bytes alongside; all six handshake methods under cuts and injected errors; FLV files = all tag sequences <= d over 5 tags (sizes 0,1,255,256,40; timestamps around 2^24 and 2^32-1) under the same faults; errors package = every nesting of {WithStack, Wrap, Wrapf, WithMessage} up to depth 5 over 6 roots. Oracle: items returned before the failure are exactly the completely transferred ones and equal to what was written; non-nil error whose errors.Cause is the transport's error (identity) or io.EOF/io.ErrUnexpectedEOF for a cut; wire after a write failure is a prefix of the fault-free stream. Non-trivial = distinct (session, fault) case that satisfied every clause.")
 	c.Assume("an io.Writer that returns short without an error is a contract breach and not in the alphabet", "a cut inside the 4-byte PreviousTagSize after a complete FLV tag body is not judged either way", "item boundaries are the wire lengths observed after each fault-free write")
 	idx := 0
 	d := 3
